@@ -22,6 +22,21 @@ LEVEL = "other"
 PARSER = "pdl-compiler/src/parser.rs"
 
 
+def is_result_literal(f, lit):
+    """lit is the struct literal in the function's tail expression (possibly inside Ok(..))"""
+    body = f.get("body") or []
+    stmts = body if isinstance(body, list) else (body.get("stmts") or [])
+    if not stmts:
+        return False
+    tail = stmts[-1]
+    found = synq.find_all(tail, lambda x: x is lit)
+    if not found:
+        return False
+    # outermost ast:: literal of the tail
+    outer = synq.find_all(tail, lambda x: x.get("k") == "Struct" and x["path"]["s"].startswith("ast::"))
+    return bool(outer) and outer[0] is lit
+
+
 def run(rep, tier, seed):
     n = {"rules": 0}
     samples = []
@@ -215,6 +230,17 @@ def run(rep, tier, seed):
                 elif child_recv and not any(r in child_recv for r in loc_recv):
                     rep.add("C12|loc|different-node", f"{name}: loc is taken from {loc_recv} but the children of {child_recv} "
                             f"are converted", PARSER + ":" + name)
+                else:
+                    # the pair handed to the function covers everything the function converts (sub-pairs are obtained from
+                    # it): when the function has such a parameter, the node it returns must take its range from that pair
+                    params = [p_["pat"].get("id") for p_ in f.get("params", []) if "Node" in str(p_.get("ty", ""))
+                              and p_.get("pat", {}).get("k") == "PIdent"]
+                    if params and is_result_literal(f, lit):
+                        n["result_loc"] = n.get("result_loc", 0) + 1
+                    if params and is_result_literal(f, lit) and not any(r in params for r in loc_recv):
+                        rep.add("C12|loc|sub-node", f"{name}: the returned node takes its range from {loc_recv}, a sub-pair of "
+                                f"`{params[0]}`: parts converted from its siblings (e.g. a field's condition) fall outside the "
+                                f"range", PARSER + ":" + name)
             elif e.get("k") == "MethodCall" and e["method"] == "as_loc":
                 pass
             elif e.get("k") == "Struct" and e["path"]["s"].endswith("SourceRange"):
@@ -222,6 +248,9 @@ def run(rep, tier, seed):
             else:
                 rep.add("C12|loc|not-from-as_loc", f"{name}: ast node built with loc = {e.get('k')}", PARSER + ":" + name)
     n["rules"] += 1
+    if n.get("result_loc", 0) < 3:
+        rep.add("C12|floor|result-loc", f"only {n.get('result_loc', 0)} converters return a node ranged by their own pair (floor 3)",
+                PARSER)
     if n_loc < 12:
         rep.add("C12|floor|loc-sites", f"only {n_loc} AST literals with a loc found (floor 12)", PARSER)
     al = next((f for k, f in fns.items() if k.endswith("::as_loc")), None)
